@@ -230,7 +230,8 @@ PROPS["C18"] = dict(
     technique="contract-based deductive verification (Verus): whole-state contracts + anchored fragment of the checker task",
     design_ref="§6 C18",
     assumptions=["one checker task per resource updates the counters (critical sections atomic, R8)", "counters below u64::MAX"],
-    trusted=COMMON_TRUST, excluded=["round-robin evenness over time (only: the pick is usable_indices[counter % len])", "Random strategy (cfg feature off)", "semantics of the std iterator adapters (assumed helpers)"],
+    trusted=COMMON_TRUST, excluded=["round-robin evenness over time (only: the pick is usable_indices[counter % len])", "Random strategy (cfg feature off)", "semantics of the std iterator adapters (assumed helpers)",
+                                   "the background checker task outside the status-update block: that a check is performed at every interval, that the task survives (no panic in its loop), and which instant a check's timeout is measured from (seeds C18-9, C18-12: missed)"],
 )
 
 PROPS["C19"] = dict(
@@ -315,7 +316,7 @@ PROPS["C20"] = dict(
     design_ref="§6 C20",
     assumptions=["Tower contract of the inner service (assumed shim)", "a clone of a service is not ready (strict services such as Buffer)", "listeners are observers (R2)"],
     trusted=COMMON_TRUST,
-    excluded=["(c) listeners: panicking listeners / every listener receives every event (not decided)", "executor (not under contract)", "stacks: composition is a meta-argument over the per-layer contracts"],
+    excluded=["(c) listeners: panicking listeners / every listener receives every event / a listener that re-enters the layer while a lock guard is still alive (not decided; seed C20-12: missed)", "executor (not under contract)", "stacks: composition is a meta-argument over the per-layer contracts"],
 )
 
 PROPS["C12"] = dict(
